@@ -889,6 +889,7 @@ pub fn contradiction(ctx : &Ctx, out : &mut Out)
 /// C10: clean removes targets into the cache and the next build brings them back.
 pub fn clean_build(ctx : &Ctx, out : &mut Out)
 {
+    run_corpus(out, "c10", true);
     let mut rng = Rng::new(ctx.seed).fork(10);
     let n = if ctx.thorough { 2000 } else { 150 };
     for i in 0..n
@@ -933,39 +934,65 @@ pub fn clean_build(ctx : &Ctx, out : &mut Out)
         let up_to_date = disk_files(&driver.sys.disk());
         let exec_bits : BTreeMap<String, bool> = driver.sys.disk().files.iter().map(|(p, n)| (p.clone(), n.exec)).collect();
 
-        let clean_goal = if r.chance(1, 2) { None } else { Some(r.pick(&targets).clone()) };
-        let cleaned = invoke(Op::Clean(clean_goal.clone()), &mut ops, &mut obs, &mut tr, out);
-        let build_goal = if r.chance(1, 2) { None } else { Some(r.pick(&targets).clone()) };
-        let rebuilt = invoke(Op::Build(build_goal.clone()), &mut ops, &mut obs, &mut tr, out);
-        emit_case(out, false, 1_000_000, &ops, &obs, true);
-        out.count(&format!("clean:{}-build:{}", if clean_goal.is_some() { "goal" } else { "all" }, if build_goal.is_some() { "goal" } else { "all" }));
-
-        let replay = replay_json("c10", false, 1_000_000, &ops);
-        if !cleaned.verdict.is_ok() { out.violation("C10:clean-fails", format!("clean gives {}", cleaned.verdict.show()), replay.clone()); continue; }
-        if !rebuilt.verdict.is_ok() { out.violation("C10:build-after-clean-fails", format!("the targets were up to date before the clean, but the following build gives {}", rebuilt.verdict.show()), replay.clone()); continue; }
-        let scope_b : BTreeSet<String> = sc.scope(&build_goal).map(|s| s.iter().flat_map(|j| sc.rules[*j].targets.iter().cloned()).collect()).unwrap_or(BTreeSet::new());
-        let after = driver.sys.disk();
-        for t in scope_b.iter()
+        // one to three rounds of clean / build: every round but the last builds everything, so that all targets are
+        // up to date again before the next clean (a round after a build that only RECOVERED the targets is a
+        // different state of ruler's bookkeeping than the first round: nothing is remembered about a recovered file)
+        let rounds = 1 + r.below(3);
+        out.count(&format!("rounds:{}", rounds));
+        let mut ok = true;
+        for round in 0..rounds
         {
-            match after.files.get(t)
+            let last = round + 1 == rounds;
+            let clean_goal = if r.chance(1, 2) { None } else { Some(r.pick(&targets).clone()) };
+            let before_clean = driver.sys.disk();
+            let cleaned = invoke(Op::Clean(clean_goal.clone()), &mut ops, &mut obs, &mut tr, out);
+            let after_clean = driver.sys.disk();
+            let build_goal = if !last || r.chance(1, 2) { None } else { Some(r.pick(&targets).clone()) };
+            let rebuilt = invoke(Op::Build(build_goal.clone()), &mut ops, &mut obs, &mut tr, out);
+            out.count(&format!("clean:{}-build:{}", if clean_goal.is_some() { "goal" } else { "all" }, if build_goal.is_some() { "goal" } else { "all" }));
+
+            let replay = replay_json("c10", false, 1_000_000, &ops);
+            if !cleaned.verdict.is_ok() { out.violation("C10:clean-fails", format!("clean gives {}", cleaned.verdict.show()), replay.clone()); ok = false; break; }
+            let cleaned_scope : BTreeSet<String> = sc.scope(&clean_goal).map(|s| s.iter().flat_map(|j| sc.rules[*j].targets.iter().cloned()).collect()).unwrap_or(BTreeSet::new());
+            // after a clean none of the in-scope target files exists and each one's content is in the cache
+            for t in cleaned_scope.iter()
             {
-                None => out.violation("C10:target-not-brought-back", format!("{:?} is missing after the build that follows the clean", t), replay.clone()),
-                Some(node) =>
+                if after_clean.files.contains_key(t)
                 {
-                    if Some(&*node.content) != up_to_date.get(t) { out.violation("C10:target-not-identical", format!("{:?} came back with different content", t), replay.clone()); }
-                    // the executable permission: claimed when contents are pairwise different (one cache file per target)
-                    if unique && Some(&node.exec) != exec_bits.get(t) { out.violation("C10:permission-lost", format!("{:?} came back with executable = {} instead of {:?}", t, node.exec, exec_bits.get(t)), replay.clone()); }
-                },
+                    out.violation("C10:target-still-there-after-clean", format!("{:?} is in the scope of the clean (round {}) and still exists afterwards", t, round + 1), replay.clone());
+                }
+                if let Some(node) = before_clean.files.get(t)
+                {
+                    let in_cache = after_clean.files.iter().any(|(p, n)| p.starts_with(&cache_prefix()) && n.content == node.content);
+                    if !in_cache { out.violation("C10:cleaned-content-not-in-cache", format!("the content {:?} had before the clean (round {}) is not in the cache afterwards", t, round + 1), replay.clone()); }
+                }
+            }
+            if !rebuilt.verdict.is_ok() { out.violation("C10:build-after-clean-fails", format!("the targets were up to date before the clean, but the following build gives {}", rebuilt.verdict.show()), replay.clone()); ok = false; break; }
+            let scope_b : BTreeSet<String> = sc.scope(&build_goal).map(|s| s.iter().flat_map(|j| sc.rules[*j].targets.iter().cloned()).collect()).unwrap_or(BTreeSet::new());
+            let after = driver.sys.disk();
+            for t in scope_b.iter()
+            {
+                match after.files.get(t)
+                {
+                    None => out.violation("C10:target-not-brought-back", format!("{:?} is missing after the build that follows the clean", t), replay.clone()),
+                    Some(node) =>
+                    {
+                        if Some(&*node.content) != up_to_date.get(t) { out.violation("C10:target-not-identical", format!("{:?} came back with different content", t), replay.clone()); }
+                        // the executable permission: claimed when contents are pairwise different (one cache file per target)
+                        if unique && Some(&node.exec) != exec_bits.get(t) { out.violation("C10:permission-lost", format!("{:?} came back with executable = {} instead of {:?}", t, node.exec, exec_bits.get(t)), replay.clone()); }
+                    },
+                }
+            }
+            let contents : Vec<&Vec<u8>> = cleaned_scope.iter().filter_map(|t| up_to_date.get(t)).collect();
+            let pairwise_different = contents.iter().collect::<BTreeSet<_>>().len() == contents.len();
+            out.count(if pairwise_different { "cleaned-contents:pairwise-different" } else { "cleaned-contents:some-equal" });
+            if pairwise_different && !rebuilt.commands.is_empty()
+            {
+                out.violation("C10:command-ran-after-clean", format!("the cleaned targets' contents are pairwise different, yet the build after the clean ran {:?}", rebuilt.commands.iter().map(|c| c.1.clone()).collect::<Vec<_>>()), replay.clone());
             }
         }
-        let cleaned_scope : BTreeSet<String> = sc.scope(&clean_goal).map(|s| s.iter().flat_map(|j| sc.rules[*j].targets.iter().cloned()).collect()).unwrap_or(BTreeSet::new());
-        let contents : Vec<&Vec<u8>> = cleaned_scope.iter().filter_map(|t| up_to_date.get(t)).collect();
-        let pairwise_different = contents.iter().collect::<BTreeSet<_>>().len() == contents.len();
-        out.count(if pairwise_different { "cleaned-contents:pairwise-different" } else { "cleaned-contents:some-equal" });
-        if pairwise_different && !rebuilt.commands.is_empty()
-        {
-            out.violation("C10:command-ran-after-clean", format!("the cleaned targets' contents are pairwise different, yet the build after the clean ran {:?}", rebuilt.commands.iter().map(|c| c.1.clone()).collect::<Vec<_>>()), replay.clone());
-        }
+        let _ = ok;
+        emit_case(out, false, 1_000_000, &ops, &obs, true);
     }
 }
 
